@@ -13,7 +13,7 @@ class C22(Prop):
   quick_examples = 1200
   thorough_examples = 15000
   rule = ("Metamorphic twins: a Hypothesis-generated chart x start state x event list is run twice "
-          "on the same kind of host (plain/instrumented/queued, decorated or not); one twin has "
+          "on the same kind of host (plain/instrumented/queued; decorated, not decorated or only partly decorated); one twin has "
           "generated is_in / child_state queries (argument: any state of the chart or top) "
           "interleaved after start_at and between events. Oracle: is_in(X) is true iff X is on the "
           "reference model's active path (X = current state, an ancestor, or top); child_state(P) "
@@ -33,6 +33,9 @@ class C22(Prop):
     def case(draw):
       c = draw(chartgen.chart_case(max_events=8))
       c["host"] = draw(hosts)
+      mixed = draw(st.sampled_from([None, None, None, "mixed_even", "mixed_odd"]))
+      if mixed and c["spec"]["spy"]:
+        c["spec"] = dict(c["spec"], spy=mixed)      # only some state functions wear the decorator
       n = c["spec"]["n"]
       qs = {}
       for k in range(-1, len(c["events"])):
